@@ -22,7 +22,9 @@ MTOrder == <<"default", "m", "n", "o", "u">>      \* the harness writes files wi
 NoDep == [name |-> "", body |-> None]
 MTDefaults ==
   CASE Scenario \in {"main_edit_dir_override", "dir_edit", "alias_eval", "dir_edit_linked", "merge_mode_dir_edit", "dir_two_files"} -> <<>>
-    [] Scenario \in {"defaults_permissive", "empty_main_dir_edit", "defaults_override_removed", "dir_only_edit"} -> << [name |-> "n", body |-> RolesB({"dflt"}), dep |-> NoDep, removal |-> 0] >>
+    [] Scenario \in {"defaults_permissive", "empty_main_dir_edit", "dir_only_edit"} -> << [name |-> "n", body |-> RolesB({"dflt"}), dep |-> NoDep, removal |-> 0] >>
+    \* (this registered default is marked deprecated for removal: a flag that changes warnings, not decisions)
+    [] Scenario = "defaults_override_removed" -> << [name |-> "n", body |-> RolesB({"dflt"}), dep |-> NoDep, removal |-> 1] >>
     [] Scenario \in {"deprecated", "deprecated_override_removed"} -> << [name |-> "n", body |-> RolesB({"dflt"}), dep |-> [name |-> "o", body |-> RolesB({"old"})], removal |-> 0] >>
 
 File(c, t) == [exists |-> TRUE, mtime |-> t, content |-> c]
